@@ -250,6 +250,16 @@ def run(prog, R):
                 ok = n_loop <= 1 and every_iter
         R.add('PAR-9', body, 'init-site:%s#%d' % (where, n_loop if where == 'fill-loop' else n_straight),
               ok, site(body, t.line), 'data-set initialiser called (%s)' % where)
+    # exactly one straight-line site, and it provides the consumer's current set (queue_len + 1 sets in total)
+    cur_ok = False
+    for name, op in zip(rsets_stmt.rv.j['fields'], rsets_stmt.rv.ops):
+        if name in cx.struct_fields:
+            continue
+        rs = cx.prov(sc, op)
+        if rs and all(r.kind == 'call' and any(tt is r.data and bb is r.body and not in_loop(sc, blk_) for bb, blk_, tt in init_sites) for r in rs):
+            cur_ok = True
+    R.add('PAR-9', sc, 'current-set-is-the-extra-set', cur_ok and n_straight == 1 and n_loop == 1, site(sc, rsets_stmt.line),
+          'the set the consumer holds first comes from the single initialiser call outside the fill loop (queue_len + 1 sets circulate: with fewer, a consumer holding one starves the reader): %s' % (cur_ok and n_straight == 1 and n_loop == 1))
     R.floor('PAR-9', 3)
     # other ways a data set could be created in generic parallel code: Default/Clone of the
     # record sets outside initialiser closures
@@ -435,7 +445,16 @@ def run(prog, R):
         if not found:
             R.add('PAR-5', pb, 'returns-current-and-received-output', False, site(pb, t.line), 'no Ok((set, out)) return found')
 
-    # ---------------- PAR-6
+    # PAR-5b: the receive dominates every return of next(): it cannot end the stream on its own
+    recv_blocks = [x for x, t in find_call(cx.prn, 'std::sync::mpsc::Receiver::recv')]
+    if len(recv_blocks) != 1:
+        R.add('PAR-5', cx.prn, 'single-receive', False, site(cx.prn, cx.prn.span['lo']), 'expected exactly one recv in next(), found %d' % len(recv_blocks))
+    else:
+        rb_ = recv_blocks[0]
+        bad = [e for e in cx.prn.cfg.exits if not cx.prn.cfg.dominates(rb_, e)]
+        R.add('PAR-5', cx.prn, 'every-return-follows-the-receive', not bad, site(cx.prn, cx.prn.span['lo']),
+              'returns of next() that are not preceded by the receive (the stream would end although results are still on their way): %s' % bad)
+    # ---------------- PAR-6  (every join of the reader thread happens after both consumer-side endpoints died)
     consumer = []
     for blk, t in sc.calls():
         if t.callee and t.callee.path in ('std::ops::FnOnce::call_once', 'std::ops::FnMut::call_mut', 'std::ops::Fn::call'):
@@ -443,23 +462,47 @@ def run(prog, R):
                 consumer.append((blk, t))
     joins_h = find_call(sc, 'crossbeam_utils::thread::ScopedJoinHandle::join')
     rl = rsets_stmt.place.local
-    dropb = set()
-    for b in sc.cfg.reachable:
-        t = sc.blocks[b].term
-        if t.k == 'drop' and t.place.local == rl and not t.place.proj:
-            dropb.add(b)
-        if t.k == 'call' and t.callee and t.callee.is_('std::mem::drop'):
-            rs = roots_of(sc, t.args[0])
-            if any(r[0] == 'agg' and r[1] is rsets_stmt for r in rs):
-                dropb.add(b)
+
+    def holds(place_or_op):
+        """which endpoints does this place/operand hold? -> set of 'empty.send' / 'done.recv'"""
+        out = set()
+        if isinstance(place_or_op, Place) and place_or_op.local == rl and not place_or_op.proj:
+            return {'empty.send', 'done.recv'}
+        for r in roots_of(sc, place_or_op):
+            if r[0] == 'agg' and r[1] is rsets_stmt:
+                names = [q[1] for q in r[-1]]
+                if not names:
+                    return {'empty.send', 'done.recv'}
+                if names[0] in cx.struct_fields:
+                    out.add(cx.struct_fields[names[0]])
+        ep = cx.endpoint(sc, place_or_op)
+        if ep in ('empty.send', 'done.recv'):
+            out.add(ep)
+        return out
+    dropb = {'empty.send': set(), 'done.recv': set()}
+    for x in sc.cfg.reachable:
+        t = sc.blocks[x].term
+        if t.k == 'drop':
+            for e in holds(t.place):
+                dropb[e].add(x)
+        if t.k == 'call' and t.callee and t.callee.is_('std::mem::drop') and t.args and not t.args[0].is_const:
+            for e in holds(t.args[0]):
+                dropb[e].add(x)
     if not consumer or not joins_h:
         R.anchor_missing('PAR-6', 'consumer call / ScopedJoinHandle::join in the scope closure')
+    nj = 0
+    for jb, jt in joins_h:
+        nj += 1
+        alive = []
+        for e in ('empty.send', 'done.recv'):
+            reach = sc.cfg.reach_from(0, removed=dropb[e], include_start=True)
+            if jb in reach:
+                alive.append(e)
+        R.add('PAR-6', sc, 'endpoints-dead-before-join#%d' % nj, not alive and bool(dropb['empty.send']) and bool(dropb['done.recv']), site(sc, jt.line),
+              'consumer-side channel endpoints that can still be alive when the reader thread is joined: %s (the reader / workers would block on them forever)' % (alive or 'none'))
     for cb, ct in consumer:
         for jb, jt in joins_h:
-            reach = sc.cfg.reach_from(cb, removed=dropb)
-            R.add('PAR-6', sc, 'drop-before-join', jb not in reach and bool(dropb), site(sc, jt.line),
-                  'join reachable from the consumer call without dropping the ParallelRecordsets: %s' % (jb in reach))
-
+            pass
     # ---------------- PAR-7
     PANICKY = ('std::result::Result::unwrap', 'std::result::Result::expect', 'std::result::Result::unwrap_unchecked',
                'std::result::Result::unwrap_err', 'std::result::Result::expect_err')
